@@ -37,6 +37,21 @@ CLAIMED.update({
          "Amf0.tla as a faithful reading of the AMF0 specification; TLC; harness logger and its reference encoder (validated by the TLA+ decoder per case: disagreement is a tool error)", "5 C12"),
 })
 
+CLAIMED.update({
+ "C13": (MC, "TLC trace validation against RtmpMsg.tla (type ids, body layouts, event and limit codes from RTMP 1.0) with AMF0 bodies read by the TLA+ reference decoder; both directions; all 256 type ids",
+         "Every recorded conversion is judged by the specification: the type id and body must be the layout the protocol document prescribes and must convert back to an equal message; foreign reference bodies (incl. ids 15/17) must decode to what they denote; unknown ids pass through; chunk sizes above 2^31-1 are rejected in both directions.",
+         "RtmpMsg.tla/Amf0.tla as faithful readings of the specifications; TLC; harness logger", "5 C13"),
+ "C09": (MC, "TLC: MC_Server explores every history of ServerSession.tla over a small alphabet with history variables restating C09 (no depth bound) + Trace_Server replays logs of the real ServerSession through the same SrvStep function",
+         "Design level: the request/stream state machine satisfies every clause of the property in all histories (20k-890k distinct states). Code level: random histories over every message class and application call incl. stale/never-issued ids on the real session; every call's events, responses and (for refusals) state are judged by the model; fresh ids may be any unused value.",
+         "TLC; probe hook; message-level logs trust the library codec for decoding returned packets (C18 re-checks bytes)", "5 C09"),
+ "C10": (MC, "TLC: MC_Client (every history, observation-driven history state) + Trace_Client replays logs of the real ClientSession through CliStep",
+         "Same construction as C09 for the client workflow: permitted states per request, transaction bookkeeping, status dispatch, media gating, stop, ping echo.",
+         "TLC; probe hook; library codec for decoding returned packets", "5 C10"),
+ "C17": (MC, "Apalache: inductive invariant of AckFlat for all windows 1..2^32-1 and all call sizes; TLC: small windows exhaustively; Trace_Server/Trace_Client judge every input call of both real sessions with AckStep",
+         "The accounting law (conservation, fewer than W outstanding, an acknowledgement exactly when the threshold is reached, carrying the count) is proved inductive symbolically over unbounded integers; each recorded handle_input call of both sessions is then checked against the same step function with the real window values.",
+         "Apalache/Z3; TLC; the byte count of a call is the length of the slice passed in", "5 C17"),
+})
+
 NOT_YET = {}
 
 def main():
